@@ -6,6 +6,7 @@ From VQ Require Import Num Model.Vec Model.Core Model.Machine Proofs.CorePure Gl
 From VQ Require Import Glue.Pin_w_euclid Glue.Pin_w_cosine Glue.Pin_w_vq Glue.Pin_w_fsq Glue.Pin_w_lfq Glue.Pin_w_simvq Glue.Pin_w_rpq Glue.Pin_w_rvq Glue.Pin_w_rfsq Glue.Pin_w_rlfq Glue.Pin_w_rsvq Glue.Pin_w_lq Glue.Pin_o_rpq_eval.
 From VQ Require Import Model.History Proofs.HistoryProofs.
 From VQ Require Import Glue.Pin_fp_C08.
+From VQ Require Import Model.Alias Proofs.AliasProofs Glue.Pin_w_euclid Glue.Pin_w_cosine.
 Import ListNotations.
 
 Theorem C08_call_pure :
@@ -291,3 +292,39 @@ Theorem C08_tie_source_footprint :
   fp_C08.fp_C08 = pinned_fp_C08.
 Proof. exact (@Pin_fp_C08.pin_fp_C08). Qed.
 Print Assumptions C08_tie_source_footprint.
+
+Theorem C08_in_place_update_seen_by_every_observer :
+  forall (V : Type) (st : store V) (m1 m2 : binding) (f g : nat) (v : V),
+       m1 f = m2 g -> read V (fst (write_in_place V st m1 f v)) m2 g = v.
+Proof. exact (@AliasProofs.in_place_seen_by_all). Qed.
+Print Assumptions C08_in_place_update_seen_by_every_observer.
+
+Theorem C08_in_place_update_frame :
+  forall (V : Type) (st : store V) (m1 m2 : binding) (f g : nat) (v : V),
+       m2 g <> m1 f -> read V (fst (write_in_place V st m1 f v)) m2 g = read V st m2 g.
+Proof. exact (@AliasProofs.in_place_frame). Qed.
+Print Assumptions C08_in_place_update_frame.
+
+Theorem C08_rebinding_unties_observers :
+  forall (V : Type) (st : store V) (m1 m2 : binding) (f g fresh : nat) (v : V),
+       m1 f = m2 g -> fresh <> m2 g -> read V (fst (rebind V st m1 f fresh v)) m2 g = read V st m2 g.
+Proof. exact (@AliasProofs.rebind_unties). Qed.
+Print Assumptions C08_rebinding_unties_observers.
+
+Theorem C08_rebinding_refuted :
+  forall (V : Type) (old new : V),
+       old <> new ->
+       exists (st : store V) (m1 m2 : binding) (f fresh : nat),
+         m1 f = m2 f /\ read V (fst (rebind V st m1 f fresh new)) m2 f <> new.
+Proof. exact (@AliasProofs.rebind_refuted). Qed.
+Print Assumptions C08_rebinding_refuted.
+
+Theorem C08_tie_euclid_write_sites_pinned :
+  w_euclid.w_euclid = pinned_w_euclid.
+Proof. exact (@Pin_w_euclid.pin_w_euclid). Qed.
+Print Assumptions C08_tie_euclid_write_sites_pinned.
+
+Theorem C08_tie_cosine_write_sites_pinned :
+  w_cosine.w_cosine = pinned_w_cosine.
+Proof. exact (@Pin_w_cosine.pin_w_cosine). Qed.
+Print Assumptions C08_tie_cosine_write_sites_pinned.
